@@ -269,6 +269,64 @@ func c05Backlog(prefix []int, mode string, n int) explore.Outcome {
 	return finishOutcome(res, obs, viol, true)
 }
 
+// c05ReusedParams: the application builds one parameter map and re-uses it, changing it between
+// sends (a progress record that is updated and sent again). What a session receives is what the
+// map held when the send was made - also when the session's reader was slow and the notification
+// waited in a queue, and also for the session the next send goes to.
+func c05ReusedParams(prefix []int, mode string) explore.Outcome {
+	var viol []explore.Violation
+	obs := &hx.Log{}
+	res := vsched.Run(cfgFor(prefix), func() {
+		vsched.SetBranching(false)
+		w, err := c05New(mode, 2, true)
+		if err != nil {
+			viol = append(viol, V("setup-handshake-fails", "setting the scenario up with well-behaved peers fails: %v", err))
+			return
+		}
+		w.peers[0].Stream.Stall(true)
+		vsched.SetBranching(true)
+		send := func(i int, params map[string]interface{}) error {
+			if w.r.SSE != nil {
+				return w.r.SSE.SendNotification(w.sid(i), "notifications/message", params)
+			}
+			return w.r.Server.SendNotification(w.sid(i), "notifications/message", params)
+		}
+		var errs []error
+		done := &hx.Flag{}
+		vsched.Go("sender", func() {
+			params := map[string]interface{}{"tag": "n1", "nested": map[string]interface{}{"k": "n1"}}
+			errs = append(errs, send(0, params))
+			params["tag"] = "n2"
+			params["nested"] = map[string]interface{}{"k": "n2"}
+			errs = append(errs, send(0, params))
+			params["tag"] = "n3"
+			params["extra"] = true
+			errs = append(errs, send(1, params))
+			delete(params, "tag")
+			done.Set()
+		})
+		vsched.Quiesce()
+		w.peers[0].Stream.Stall(false)
+		vsched.Quiesce()
+		k := func(s string) string { return s + ":reused-params:" + mode }
+		if !done.Get() {
+			viol = append(viol, V(k("send-hangs"), "SendNotification never returned although the reader resumed; blocked: %v", vsched.LiveThreads()))
+			return
+		}
+		for i, e := range errs {
+			if e != nil {
+				viol = append(viol, V(k("send-fails"), "send %d failed: %v", i+1, e))
+			}
+		}
+		a, b := strings.Join(w.notes(0), ","), strings.Join(w.notes(1), ",")
+		if len(viol) == 0 && (a != "n1,n2" || b != "n3") {
+			viol = append(viol, V(k("later-value-delivered"), "one parameter map was sent as n1 and n2 to session A and as n3 to session B, changed in between; A's stream carries [%s], B's [%s]", a, b))
+		}
+		obs.Add("A=%s B=%s", a, b)
+	})
+	return finishOutcome(res, obs, viol, true)
+}
+
 func idx(xs []string, x string) int {
 	for i, y := range xs {
 		if y == x {
@@ -876,6 +934,8 @@ func init() {
 	}
 	for _, mode := range []string{"ss", "ls"} {
 		mode := mode
+		RegisterScenario(&Scenario{Name: "c05/reused-params/" + mode, Run: func(p []int, m []vsched.ChoicePoint) explore.Outcome { return c05ReusedParams(p, mode) },
+			Doc: "one parameter map sent three times (A, A, B) and changed between the sends while A's reader is stalled: every session receives what the map held at the time of its send"})
 		RegisterScenario(&Scenario{Name: "c05/slow-reader/" + mode, Run: func(p []int, m []vsched.ChoicePoint) explore.Outcome { return c05SlowReader(p, mode) },
 			Doc: "three notifications and a broadcast to a session whose reader stays away for 20 virtual seconds, then resumes: reported results agree with what arrives"})
 		for _, n := range []int{3, 101, 103} {
@@ -903,6 +963,7 @@ func init() {
 			}
 		}
 		for _, mode := range []string{"ss", "ls"} {
+			c.DFS("c05/reused-params/"+mode, explore.Bounds{Preempt: c.Pick(1, 2), Dev: 0, POR: true, MaxExec: c.Pick(1500, 60000)})
 			c.DFS("c05/slow-reader/"+mode, explore.Bounds{Preempt: c.Pick(1, 2), Dev: 0, POR: true, MaxExec: c.Pick(1500, 60000)})
 			for _, n := range []int{3, 101, 103} {
 				c.DFS(fmt.Sprintf("c05/backlog/%s/%d", mode, n), explore.Bounds{Preempt: c.Pick(1, 2), Dev: 0, POR: true, MaxExec: c.Pick(1500, 60000)})
